@@ -29,6 +29,10 @@ def L(s):
     return [ord(c) for c in s]
 
 
+NAN = float("nan")
+NAN_MODE = [False]
+
+
 class Kind:
     """gamma/alpha for one mapping class."""
 
@@ -38,6 +42,8 @@ class Kind:
     def enc(self, v):
         if v == -1:
             return None
+        if v == 2 and NAN_MODE[0]:
+            v = NAN            # one shared non-reflexive object: mappings holding the same object are equal (as for dict)
         return [v] if self.wrap else v
 
     def dec(self, v):
@@ -45,9 +51,9 @@ class Kind:
             return -1
         if self.wrap:
             if isinstance(v, list) and len(v) == 1:
-                return v[0]
+                return 2 if v[0] is NAN else v[0]
             return ("odd", repr(v))
-        return v
+        return 2 if v is NAN else v
 
     def state(self, obj):
         return [[L(k), self.dec(v)] for k, v in obj.items()]
@@ -186,6 +192,7 @@ def run(ctx: Ctx):
         nontriv = bool(o["k"] and o["k"][0] >= 97) or any(p[0][0] >= 97 for p in o["pairs"] + o["kw"])
         for kind in KINDS:
             ctx.case((kind.name, repr(v["pre"]), repr(o)), nontriv)
+            NAN_MODE[0] = rnd.random() < 0.25          # value 2 is sometimes a NaN object
             obj = kind.build(v["pre"])
             if kind.state(obj) != v["pre"]:
                 raise Machinery(f"gamma/alpha self-check failed for {kind.name} {v['pre']}")
